@@ -182,7 +182,7 @@ def allPaths (f : Nat → List α → Option (List Nat)) : List Nat → List (Li
 
 /-- `simulate_indices` after `init_states` has been computed: `us` is the `(k, ts_length-1)`
     array `random_state.random(size=(k, ts_length-1))`, row `i` drives path `i`.
-    `none` = the model was asked something outside its domain (wrong number of uniform rows,
+    `none` = the model was asked something outside its domain (wrong shape of the uniforms,
     read outside the arrays). -/
 def simulateWith (f : Nat → List α → Option (List Nat)) (ir : InitRes) (us : List (List α)) :
     Option SimRes :=
@@ -190,6 +190,28 @@ def simulateWith (f : Nat → List α → Option (List Nat)) (ir : InitRes) (us 
   match allPaths f ir.states us with
   | none => none
   | some ps => some ⟨ir.dim, ps⟩
+
+/-- The whole of `simulate_indices` (469-520) given the uniforms: init handling, then
+    `random_state.random(size=(k, ts_length-1))` (`ValueError` for `ts_length = 0`: negative
+    dimension), then the kernel. `us` must have shape `(k, ts-1)`. -/
+def simulateIndices (n : Nat) (f : Nat → List α → Option (List Nat)) (init : Init)
+    (numReps : Option Nat) (drawn : List Nat) (ts : Nat) (us : List (List α)) :
+    Except Err (Option SimRes) :=
+  match initStates n init numReps drawn with
+  | .error e => .error e
+  | .ok ir =>
+    if ts = 0 then .error .valueError
+    else if us.all (fun r => r.length + 1 == ts) then .ok (simulateWith f ir us)
+    else .ok Option.none
+
+/-- `simulate` (554-564) with `state_values=None`: `get_index` first (only `0 ≤ init < n`),
+    then `simulate_indices`. -/
+def simulate (n : Nat) (f : Nat → List α → Option (List Nat)) (init : Init)
+    (numReps : Option Nat) (drawn : List Nat) (ts : Nat) (us : List (List α)) :
+    Except Err (Option SimRes) :=
+  match getIndex n init with
+  | .error e => .error e
+  | .ok i => simulateIndices n f i numReps drawn ts us
 
 /-! ### DiscreteRV.draw, random.draw -/
 
@@ -235,7 +257,7 @@ def showErr : Err → String
 
 def showSim : Option SimRes → String
   | none => "model-out-of-domain"
-  | some r => "dim=" ++ toString r.dim ++ "|X=" ++ showMat toString r.paths
+  | some r => "dim=" ++ toString r.dim ++ "|k=" ++ toString r.paths.length ++ "|X=" ++ showMat toString r.paths
 
 /-- the scalar-specific part of the protocol -/
 structure Sc (α : Type) where
@@ -247,23 +269,40 @@ structure Sc (α : Type) where
 def scFloat : Sc Float := ⟨kvFloats, kvFloatMat, parseFloat?, showFloatBits⟩
 def scRat : Sc Rat := ⟨kvRats, kvRatMat, parseRat?, showRat⟩
 
-def simArgs (r : List String) : Option (Init × Option Nat × List Nat × Bool) :=
-  match (kv r "init").bind parseInit?, (kv r "reps").bind parseReps?, kvNats r "drawn", kv r "via" with
-  | some i, some reps, some d, some via =>
-    if via = "indices" then some (i, reps, d, false)
-    else if via = "simulate" then some (i, reps, d, true) else none
-  | _, _, _, _ => none
+structure SimArgs where
+  init : Init
+  reps : Option Nat
+  drawn : List Nat
+  viaSim : Bool
+  ts : Nat
 
-def runSim (n : Nat) (f : Nat → List α → Option (List Nat)) (a : Init × Option Nat × List Nat × Bool)
-    (us : List (List α)) : String :=
-  let (init, reps, drawn, viaSim) := a
-  let init' : Except Err Init := if viaSim then getIndex n init else .ok init
-  match init' with
+def simArgs (r : List String) : Option SimArgs :=
+  match (kv r "init").bind parseInit?, (kv r "reps").bind parseReps?, kvNats r "drawn", kv r "via",
+        kvNat r "ts" with
+  | some i, some reps, some d, some via, some ts =>
+    if via = "indices" then some ⟨i, reps, d, false, ts⟩
+    else if via = "simulate" then some ⟨i, reps, d, true, ts⟩ else none
+  | _, _, _, _, _ => none
+
+/-- on the wire a `(k, 0)` array of uniforms cannot be told from a `(0, ·)` one (`-`);
+    for `ts = 1` the rows are rebuilt from `k` -/
+def fixUs (k ts : Nat) (us : List (List α)) : List (List α) :=
+  if ts = 1 then List.replicate k [] else us
+
+def showRes : Except Err (Option SimRes) → String
   | .error e => showErr e
-  | .ok i =>
-    match initStates n i reps drawn with
-    | .error e => showErr e
-    | .ok ir => showSim (simulateWith f ir us)
+  | .ok r => showSim r
+
+def runSim (n : Nat) (f : Nat → List α → Option (List Nat)) (a : SimArgs) (us : List (List α)) : String :=
+  let init' : Except Err Init := if a.viaSim then getIndex n a.init else .ok a.init
+  let k := match init' with
+    | .error _ => 0
+    | .ok i => match initStates n i a.reps a.drawn with
+      | .error _ => 0
+      | .ok ir => ir.states.length
+  let us' := fixUs k a.ts us
+  showRes (if a.viaSim then simulate n f a.init a.reps a.drawn a.ts us'
+           else simulateIndices n f a.init a.reps a.drawn a.ts us')
 
 def handleSc [Add α] [LT α] [DecidableLT α] [BEq α] (sc : Sc α) (toks : List String) : String :=
   match toks with
@@ -314,7 +353,9 @@ def handleSc [Add α] [LT α] [DecidableLT α] [BEq α] (sc : Sc α) (toks : Lis
         | _, _, _ => none
       match x0? with
       | some x0 =>
-        runSim P.length (pathDense (cdfsDense P)) (Init.scalar x0, Option.none, [], true) us
+        match kvNat r "ts" with
+        | some ts => runSim P.length (pathDense (cdfsDense P)) ⟨Init.scalar x0, Option.none, [], true, ts⟩ us
+        | none => "bad-op"
       | none => "bad-op"
     | _, _ => "bad-op"
   | _ => "bad-op"
